@@ -116,6 +116,30 @@ def p2(ctx, ss):
 
 def p3(ctx, ss):
     gf = grammar_facts(ss, G)
+    # context assertions inside token patterns ((?=…), (?!…), (?<=…), (?<!…)): one that tells a line feed from other
+    # characters must treat the CR of a CRLF line end the same way, or LF and CRLF inputs are tokenised differently
+    import re as _re
+    n_assert = 0
+    for tn, td in gf.terminals.items():
+        try:
+            src = td.pattern.to_regexp()
+        except Exception:
+            continue
+        for m in _re.finditer(r"\(\?(<?[=!])((?:[^()\\]|\\.|\[(?:[^\]\\]|\\.)*\])*)\)", src):
+            kind, body = m.group(1), m.group(2)
+            n_assert += 1
+            try:
+                rx_ = _re.compile(body)
+            except _re.error:
+                continue
+            lf = rx_.match("\n") is not None
+            cr = rx_.match("\r\n") is not None or rx_.match("\r") is not None
+            k = f"{G}:{tn}:assertion"
+            if lf != cr:
+                ctx.violation("C02.3", k, GP, f"terminal {tn} has the context assertion `(?{kind}{body!r})`, which {'accepts' if lf else 'rejects'} a line feed but "
+                              f"{'rejects' if lf else 'accepts'} the carriage return of a CRLF line end: the same text is tokenised differently with LF and with CRLF line ends")
+            else:
+                ctx.holds("C02.3", k, GP, f"terminal {tn}: the assertion `(?{kind}{body!r})` treats LF and CRLF alike", 1)
     nl = Rx(gf.term_regex("_NEWLINE"))
     cm = Rx(gf.term_regex("COMMENT"))
     ws = Rx(gf.term_regex("WS_INLINE"))
